@@ -1,6 +1,8 @@
 import Comrak.Drv.Opts
 import Comrak.HtmlLang
 import Comrak.Shape
+import Comrak.HtmlSafe
+import Comrak.Lemmas.HtmlSafeTree
 namespace Comrak.Drv.Html
 open Comrak Bytes Comrak.Drv
 
@@ -18,6 +20,17 @@ def handle : Handler := fun cmd args =>
   | "shape" => some do
       let t ← parseTree args
       pure (outBool (Shape t) ++ " " ++ outBool (validateT t))
+  | "treesafe" => some do
+      let t ← parseTree args
+      pure (outBool (treeSafe t))
+  | "htmlsafe" => some do
+      match args with
+      | [h] =>
+        let b ← hexArg h
+        match safeBytes b with
+        | .ok () => pure "1"
+        | .error e => pure e.code
+      | _ => throw "bad-args"
   | "htmlbal" => some do
       match args with
       | [h] =>
